@@ -73,3 +73,11 @@ def canaries(tier):
         {'name': 'milstein-half', 'job': 'milstein-ito-scalar-d1',
          'patches': [('torchsde._core.methods.milstein', 'I_k, 0.5 * v)', 'I_k, v)')]},
     ]
+
+
+def native_replay(ob):
+    """Empirical strong order of the method named in the obligation, on a diagonal-noise SDE with time-dependent diffusion and known solution."""
+    import re
+    from props.base import run_native
+    m = re.search(r'\[(\w+),(ito|stratonovich)', ob['name'])
+    return run_native('c01', {'method': m.group(1)} if m else {}, timeout=300, hang_is_failure=False)
